@@ -561,11 +561,34 @@ func historyPhase(run *evid.Run, hasher string, prof profile, labels []int, dept
 	runSeq := func(start []int, h []op, lookups *int) {
 		rh := newReal(hasher)
 		var cur []int // current members in insertion order
+		// lists handed out earlier belong to their callers: no later lookup or
+		// membership change may alter them (a lookup that sorts or returns the
+		// ring's own node array would)
+		type heldList struct {
+			nodes  []*hrw.RendezvousHashNode
+			labels []string
+			at     int
+			key    string
+		}
+		var held []heldList
+		checkHeld := func(step int) bool {
+			for _, hl := range held {
+				if now := labelsOf(hl.nodes); !eq(now, hl.labels) {
+					run.Violation("a list returned earlier by GetOrderedNodes was changed by a later lookup or membership change (hasher "+hasher+")", map[string]interface{}{
+						"history": describe(start, h[:step+1]), "key": hl.key, "returned_at_step": hl.at, "was": hl.labels, "now": now})
+					return false
+				}
+			}
+			return true
+		}
 		for _, l := range start {
 			rh.AddNode(universe[l], prof.weights[l])
 			cur = append(cur, l)
 		}
 		for step, o := range h {
+			if step > 0 && !checkHeld(step-1) {
+				return
+			}
 			switch o.kind {
 			case 'a':
 				rh.AddNode(universe[o.label], prof.weights[o.label])
@@ -593,7 +616,11 @@ func historyPhase(run *evid.Run, hasher string, prof profile, labels []int, dept
 				for _, key := range lk {
 					for _, n := range []int{len(cur), 1, 2} {
 						*lookups++
-						got := labelsOf(rh.GetOrderedNodes(key, n))
+						gotNodes := rh.GetOrderedNodes(key, n)
+						got := labelsOf(gotNodes)
+						if len(held) < 6 {
+							held = append(held, heldList{gotNodes, got, step, key})
+						}
 						want := labelsOf(fresh.GetOrderedNodes(key, n))
 						bad := ""
 						if !eq(got, want) {
@@ -617,6 +644,9 @@ func historyPhase(run *evid.Run, hasher string, prof profile, labels []int, dept
 					}
 				}
 			}
+		}
+		if len(h) > 0 {
+			checkHeld(len(h) - 1)
 		}
 	}
 	explore := func(start []int) (e, l int) {
@@ -805,7 +835,7 @@ func main() {
 			{"murmur3", profiles[1], []int{2, 3, 4, 5}, 4, all},
 		}
 	}
-	run.Rule = "one evaluation = one real GetOrderedNodes call; enumerated: every key of the key space x every node set (all subsets up to the size bound of the label universe) x every insertion permutation of the set x every single-node RemoveNode(+re-AddNode) x every single-node AddNode, per hasher and weight profile; plus, on ONE long-lived ring, every sequence of AddNode/RemoveNode/lookup operations up to depth 4 (quick) / 5 (thorough) from every start ring of <= 3 of 4 labels in every insertion order, each lookup (10 keys: four-hex, two-hex, 64-hex; n = len, 1, 2) compared with a ring built fresh from the same node set and with the reference order; a case is distinct/non-trivial when it is a different (hasher, weights, resulting order) with >= 2 nodes"
+	run.Rule = "one evaluation = one real GetOrderedNodes call; enumerated: every key of the key space x every node set (all subsets up to the size bound of the label universe) x every insertion permutation of the set x every single-node RemoveNode(+re-AddNode) x every single-node AddNode, per hasher and weight profile; plus, on ONE long-lived ring, every sequence of AddNode/RemoveNode/lookup operations up to depth 4 (quick) / 5 (thorough) from every start ring of <= 3 of 4 labels in every insertion order, each lookup (10 keys: four-hex, two-hex, 64-hex; n = len, 1, 2) compared with a ring built fresh from the same node set and with the reference order, and every list handed out earlier in the history re-read after every later operation (it must not change); a case is distinct/non-trivial when it is a different (hasher, weights, resulting order) with >= 2 nodes"
 	run.Assume("small-scope: node sets of size <= 4 (quick) / <= 5 (thorough) drawn from 4 (quick) / 6 (thorough) of 6 fixed labels (volume paths and host:port addresses); weights uniform 100, two fixed mixed profiles over {1,100,1000} and (for the rehash-forcing hasher) two all-different profiles")
 	run.Assume("keys: all 65536 four-hex keys, all 256 two-hex keys, a fixed table of 64-hex keys, one key of every decoded length 1..160 bytes; only well-formed (even-length) hex keys -- Score is NaN for undecodable keys and the statement does not define an order for them")
 	run.Assume("reference score: own murmur3-x64-128 (cross-checked at startup against spaolacci/murmur3 on all tail lengths), low 53 bits / 2^53, rehash of the 8 hash bytes when those bits are zero, -w/ln(f); sha256 variant: 256-bit integer rounded to 53 bits / (2^256-1); reference and implementation both use math.Log of the Go runtime")
